@@ -22,6 +22,7 @@ RULE = ("a coroutine function decorated with (a) a contextmanager-built manager 
         "per call; a cancellation is attributed to the phase that owned the token it was thrown at. "
         "one evaluation = one executed schedule; distinct = (scenario, trace)")
 ASSUMPTIONS = ["class-based ContextDecorator instances are shared between calls (documented default of _recreate_cm)"]
+EXHAUSTIVE_SUBSPACES = 'every scenario counted in scenarios_explored_exhaustively had ALL its interleavings executed'
 EXHAUSTIVE = {"quick": False, "thorough": False}
 N_SCEN = {"quick": 800, "thorough": 30000}
 DFS_LIMIT = {"quick": 1500, "thorough": 40000}
